@@ -13,6 +13,7 @@ TraceInit == TInit(0, 0, 0) /\ TraceInitL
 TReset == /\ IsEv("reset") /\ Consume
           /\ q' = <<>> /\ qb' = 0 /\ qcap' = Ev.qcap /\ rate' = Ev.rate /\ burst' = Ev.burst
           /\ oldR' = <<>> /\ oldB' = <<>> /\ vb' = Ev.burst + Slack /\ now' = 0
+\* kept: the datagram was forwarded by the end of the run (every run ends by letting the queue run empty)
 TArr == IsEv("arr") /\ Consume /\ Arrive(Ev.id, Ev.len, Ev.t, Ev.kept)
 TDep == IsEv("dep") /\ Consume /\ Ev.intact /\ Depart(Ev.id, Ev.len, Ev.t)
 TRate == IsEv("rate") /\ Consume /\ SetRate(Ev.v, Ev.t)
